@@ -41,6 +41,32 @@ func runC03(c *Ctx) {
 			return isCw
 		}
 		nOff := 0
+		opensAll := callsIn(at, idIs(esp+".(*Writer).condOpenGz"))
+		// atBoundary: the counter is read after a successful closeGz and before the next stream opens
+		atBoundary := func(v ssa.Value) bool {
+			ld, ok := stripConv(v).(*ssa.UnOp)
+			if !ok || len(cse) == 0 {
+				return false
+			}
+			if okp, _ := mustPass(at, ld, newCuts().addEdges(cse)); !okp {
+				return false
+			}
+			// no stream is (re)opened between the last successful close and the read
+			for _, op := range opensAll {
+				if hit, _ := reach(at, op, isInstr(ld), newCuts().addEdges(cse)); hit != nil {
+					return false
+				}
+			}
+			return true
+		}
+		isUcN := func(v ssa.Value) bool {
+			fa2, ok := isFieldLoadAny(v, "n")
+			if !ok {
+				return false
+			}
+			_, isUc := isFieldLoad(fa2.X, wrT, "uncompressedCounter")
+			return isUc
+		}
 		eachInstr(at, func(i ssa.Instruction) {
 			st, ok := i.(*ssa.Store)
 			if !ok {
@@ -58,13 +84,9 @@ func runC03(c *Ctx) {
 					// no compressor (re)open between the close and the read of the counter
 					opens := callsIn(at, idIs(esp+".(*Writer).condOpenGz"))
 					clean := true
-					for _, cl := range closes {
-						if dominatesInstr(cl, st) {
-							for _, op := range opens {
-								if instrBetween(cl, st, op) {
-									clean = false
-								}
-							}
+					for _, op := range opens {
+						if hit, _ := reach(at, op, isInstr(st), newCuts().addEdges(cse)); hit != nil {
+							clean = false
 						}
 					}
 					c.verdict(c.fnKey(at)+":Offset=cw.n", st.Pos(), okp && clean && len(cse) > 0, "offset recorded at a stream boundary (after closeGz, before the next stream opens)", "a chunk's offset is recorded while a compressed stream is open: it does not point at a member boundary: "+c.pathStr(at, path))
@@ -86,6 +108,20 @@ func runC03(c *Ctx) {
 						good = true
 					}
 					c.verdict(c.fnKey(at)+":Offset=prev", st.Pos(), good, "chunk inside a shared stream reuses the stream's start offset", "offset of a chunk inside a shared stream is not the stream's recorded start")
+					// every remembered stream start was read at a stream boundary (also the one taken when appendTar starts:
+					// a previous AppendTar may have left a stream open)
+					base := true
+					var where ssa.Value
+					for _, v := range phiLeaves(st.Val) {
+						if isCwN(v) && !atBoundary(v) {
+							base, where = false, v
+						}
+					}
+					p := st.Pos()
+					if where != nil {
+						p = where.Pos()
+					}
+					c.verdict(c.fnKey(at)+":prevOffset-at-boundary", p, base, "every remembered stream start is the compressed counter read right after closeGz", "a remembered stream start is the compressed counter read while a stream may be open (a previous AppendTar left it open): Offset does not point at a member boundary")
 				}
 			case "InnerOffset":
 				// value = uncompressedCounter.n - prevOffsetUncompressed
@@ -99,6 +135,22 @@ func runC03(c *Ctx) {
 					}
 				}
 				c.verdict(c.fnKey(at)+":InnerOffset", st.Pos(), good, "inner offset = uncompressed counter − counter saved at the stream start", "inner offset is not measured against the uncompressed counter of the stream start")
+				if good {
+					base := true
+					var where ssa.Value
+					n := 0
+					for _, v := range phiLeaves(b.Y) {
+						n++
+						if !isUcN(v) || !atBoundary(v) {
+							base, where = false, v
+						}
+					}
+					p := st.Pos()
+					if where != nil && where.Pos().IsValid() {
+						p = where.Pos()
+					}
+					c.verdict(c.fnKey(at)+":innerBase-at-boundary", p, base && n > 0, "every base of the inner offset is the uncompressed counter read right after closeGz", "a base of the inner offset is not the uncompressed counter at a stream boundary (e.g. the constant 0 although earlier AppendTar calls already advanced the counter): InnerOffset is not relative to the stream that Offset names")
+				}
 			}
 		})
 		if nOff < 2 {
@@ -339,6 +391,7 @@ func runC03(c *Ctx) {
 		}
 		c.verdict(key, token.NoPos, good, fmt.Sprintf("footer size %d agrees between FooterSize(), parser and constructor", want), "footer size differs between FooterSize(), the parser's length check and the footer constructor")
 	}
+	clauseMarkImpliesAdd(c, "C03.f")
 	c.assume("compress/gzip, klauspost/zstd and tar-split produce valid streams; countWriter counts the bytes handed to the buffered writer")
 }
 
@@ -683,6 +736,8 @@ func runC14(c *Ctx) {
 			c.bad(c.fnKey(f)+":adds", f.Pos(), "moveRec adds nothing")
 		}
 	}
+	clauseMarkImpliesAdd(c, "C14.f")
+	c.clause("C14.d2", "T1", "the remaining-entries dump skips exactly the picked names", 1)
 	// tarFile.dump skips picked names
 	if f := c.mustFn(esp, "(*tarFile).dump"); f != nil {
 		good := false
